@@ -2,6 +2,7 @@ package rules
 
 import (
 	"fmt"
+	"go/constant"
 	"go/token"
 	"go/types"
 	"strings"
@@ -306,4 +307,46 @@ func toBits(t *sym.Term, w int) (bitVec, error) {
 		return nil, fmt.Errorf("not an integer value: %s", t.Key())
 	}
 	return fit(atomBits(t.Key(), sw)), nil
+}
+
+// simplifyBits folds integer sub-terms whose bit-level normal form is fully
+// constant (e.g. (x<<6 | 0x80) & 0x80) and re-simplifies the term.
+func simplifyBits(t *sym.Term) *sym.Term {
+	if t == nil || len(t.Args) == 0 {
+		return t
+	}
+	args := make([]*sym.Term, len(t.Args))
+	changed := false
+	for i, a := range t.Args {
+		args[i] = simplifyBits(a)
+		if args[i] != a {
+			changed = true
+		}
+	}
+	nt := t
+	if changed {
+		nt = sym.Rebuild(t, args)
+	}
+	if nt.Op == "bin" {
+		switch nt.Name {
+		case "&", "|", "^", "<<", ">>", "&^":
+			if w, _, ok := intWidth(nt.T); ok {
+				if bv, err := toBits(nt, w); err == nil {
+					allConst := true
+					var val int64
+					for i, b := range bv {
+						if b.Atom != "" {
+							allConst = false
+							break
+						}
+						val |= int64(b.Const) << uint(i)
+					}
+					if allConst {
+						return sym.Const(constant.MakeInt64(val), nt.T)
+					}
+				}
+			}
+		}
+	}
+	return nt
 }
